@@ -119,11 +119,37 @@ package main
 //@ func deprecated(g)
 //@   tags C17
 //@   assigns nothing
+//@   assert@call((*protogen.GeneratedFile).P): vcount(arg1) == 1 && vlit(arg1, 0, "// Deprecated: do not use.")   // label: the-deprecation-notice-is-a-comment
+
+// Comments copied from the .proto file are emitted only in the form
+// protogen.Comments.String() gives them (every line starts with "//"), so a
+// multi-line comment can never spill into the generated code.
+//@ spec commentText(c seq) seq
+//@ spec trimmed(s seq) seq
+//@ spec commentMarked(s seq) bool
+//@ axiom formatted_comments_are_marked: forall c seq :: {commentText(c)} commentMarked(commentText(c))
+//@   doc: "protogen.Comments.String formats the comments by inserting // to the start of each line"
+//@ axiom trimming_keeps_the_marks: forall s seq :: {trimmed(s)} commentMarked(s) ==> commentMarked(trimmed(s))
+//@   doc: "strings.TrimSpace removes leading and trailing white space only; the lines in between keep their // prefix and a marked first line still starts with //"
+//@ trusted func (protogen.Comments).String(c) res
+//@   assigns nothing
+//@   ensures res == commentText(c)
+//@   doc: "String formats the comments by inserting // to the start of each line, ensuring that there is a trailing newline. An empty comment is formatted as an empty string."
+//@ trusted func strings.TrimSpace(s) res
+//@   assigns nothing
+//@   ensures res == trimmed(s)
+//@   doc: "TrimSpace returns a slice of the string s, with all leading and trailing white space removed, as defined by Unicode."
+//@ func leadingComments(g, comments, isDeprecated)
+//@   tags C17
+//@   requires g != nil
+//@   assigns nothing
+//@   assert@call((*protogen.GeneratedFile).P): vcount(arg1) == 1 && (vlit(arg1, 0, "//") || commentMarked(vstr(arg1, 0)))   // label: only-comment-marked-text-is-emitted
 
 //@ macro methodsOK(service ref) bool = service != nil && service.Desc != nil && (forall i int :: {service.Methods[i]} 0 <= i && i < len(service.Methods) ==> service.Methods[i] != nil && service.Methods[i].Parent == service && service.Methods[i].Desc != nil && service.Methods[i].Input != nil && service.Methods[i].Output != nil && len(service.Methods[i].GoName) >= 1 && service.Methods[i].GoName[0] < 128)
 
 //@ func generateServerConstructor(g, service, names)
 //@   tags C17
+//@   assert@call((*protogen.GeneratedFile).P): viaIdent(arg1)   // label: package-qualifiers-only-through-Ident
 //@   requires g != nil && methodsOK(service)
 //@   assigns nothing
 //@   assert@call((protogen.GoImportPath).Ident): islit(arg1, "NewClientStreamHandler") ==> streamsClient(method.Desc) && !streamsServer(method.Desc) // label: client_stream_constructor
@@ -136,12 +162,14 @@ package main
 
 //@ func generateClientImplementation(g, service, names)
 //@   tags C17
+//@   assert@call((*protogen.GeneratedFile).P): viaIdent(arg1)   // label: package-qualifiers-only-through-Ident
 //@   requires g != nil && methodsOK(service)
 //@   assigns nothing
 //@   assert@call((*protogen.GeneratedFile).P): vprefix(arg1, 0, "baseURL +") ==> vlit(arg1, 0, "baseURL + \"") && vstr(arg1, 1) == canonicalPath(method) && vlit(arg1, 2, "\",") && vcount(arg1) == 3 // label: client_target_is_canonical_path
 
 //@ func generateClientMethod(g, service, method, names)
 //@   tags C17
+//@   assert@call((*protogen.GeneratedFile).P): viaIdent(arg1)   // label: package-qualifiers-only-through-Ident
 //@   requires g != nil && service != nil && method != nil && method.Desc != nil && len(method.GoName) >= 1 && method.GoName[0] < 128
 //@   assigns nothing
 //@   assert@call((*protogen.GeneratedFile).P): vlit(arg1, 2, ".CallClientStream(ctx)") ==> streamsClient(method.Desc) && !streamsServer(method.Desc) // label: client_stream_call
@@ -149,3 +177,48 @@ package main
 //@   assert@call((*protogen.GeneratedFile).P): vlit(arg1, 2, ".CallBidiStream(ctx)") ==> streamsClient(method.Desc) && streamsServer(method.Desc) // label: bidi_stream_call
 //@   assert@call((*protogen.GeneratedFile).P): vlit(arg1, 2, ".CallUnary(ctx, req)") ==> !streamsClient(method.Desc) && !streamsServer(method.Desc) // label: unary_call
 //@   assert@call((*protogen.GeneratedFile).P): vprefix(arg1, 0, "return c.") ==> vlit(arg1, 2, ".CallClientStream(ctx)") || vlit(arg1, 2, ".CallServerStream(ctx, req)") || vlit(arg1, 2, ".CallBidiStream(ctx)") || vlit(arg1, 2, ".CallUnary(ctx, req)") // label: call_is_one_of_the_four
+
+// Identifiers of other packages reach the output only through
+// GoImportPath.Ident (which records the import and renames it on a clash);
+// no literal piece of emitted text spells a package qualifier itself.
+//@ macro viaIdent(v ref) bool = vnolit(v, "http.") && vnolit(v, "context.") && vnolit(v, "errors.") && vnolit(v, "strings.") && vnolit(v, "connect.")
+//@ trusted func serverSignature(g, method) res
+//@   assigns nothing
+//@ func generatePreamble(g, file)
+//@   tags C17
+//@   requires g != nil
+//@   nosafety
+//@   assigns everything
+//@   assert@call((*protogen.GeneratedFile).P): viaIdent(arg1)   // label: package-qualifiers-only-through-Ident
+//@ func generateServiceNameConstants(g, services)
+//@   tags C17
+//@   requires g != nil
+//@   nosafety
+//@   assigns everything
+//@   assert@call((*protogen.GeneratedFile).P): viaIdent(arg1)   // label: package-qualifiers-only-through-Ident
+//@   loop 1:
+//@     invariant true
+//@ func generateClientInterface(g, service, names)
+//@   tags C17
+//@   requires g != nil
+//@   nosafety
+//@   assigns everything
+//@   assert@call((*protogen.GeneratedFile).P): viaIdent(arg1)   // label: package-qualifiers-only-through-Ident
+//@   loop 1:
+//@     invariant true
+//@ func generateServerInterface(g, service, names)
+//@   tags C17
+//@   requires g != nil
+//@   nosafety
+//@   assigns everything
+//@   assert@call((*protogen.GeneratedFile).P): viaIdent(arg1)   // label: package-qualifiers-only-through-Ident
+//@   loop 1:
+//@     invariant true
+//@ func generateUnimplementedServerImplementation(g, service, names)
+//@   tags C17
+//@   requires g != nil
+//@   nosafety
+//@   assigns everything
+//@   assert@call((*protogen.GeneratedFile).P): viaIdent(arg1)   // label: package-qualifiers-only-through-Ident
+//@   loop 1:
+//@     invariant true
